@@ -71,11 +71,8 @@ def listing_numbers(names):
     return out
 
 
-def validate_traces(traces, pid, label='Trace_Gen'):
-    """traces: list of dict(args, listing(numbers), files).  Returns verdicts
-    in order: list of dict(fails=[...], lens=[...]); TLC statistics."""
-    if not traces:
-        return [], None
+def _validate_chunk(args):
+    pid, label, offset, traces = args
     d = common.subdir('traces-%d' % os.getpid())
     path = os.path.join(d, 'gen-%d.json' % random.getrandbits(40))
     with open(path, 'w') as f:
@@ -85,9 +82,37 @@ def validate_traces(traces, pid, label='Trace_Gen'):
     def on_export(tag, rec):
         verdicts[rec['tid']] = rec
     res = tlc.run('Trace_Gen', spec='TSpec', invariants=['Verdict'], tags=('VERDICT',), on_export=on_export,
-                  env={'TRACE_FILE': path}, label=label, timeout=3000)
+                  env={'TRACE_FILE': path}, label=label, timeout=3000, workers=int(os.environ.get('TW', '4')))
     os.unlink(path)
-    tlc.require_ok(res, pid)
-    if len(verdicts) != len(traces):
-        common.machinery_exit(pid, 'Trace_Gen returned %d verdicts for %d traces' % (len(verdicts), len(traces)))
-    return [verdicts[i + 1] for i in range(len(traces))], res
+    res.pop('lines', None)
+    return offset, verdicts, dict(res)
+
+
+def validate_traces(traces, pid, label='Trace_Gen', pool=None):
+    """traces: list of dict(args, listing(numbers), files).  Returns verdicts in
+    order (dict(fails=[...], lens=[...])) and TLC statistics.  The batch is split
+    over several TLC processes (trace validation is embarrassingly parallel)."""
+    if not traces:
+        return [], None
+    import concurrent.futures as cf
+    nchunks = max(1, min(int(os.environ.get('TC', '4')), len(traces) // 50 + 1))
+    size = -(-len(traces) // nchunks)
+    jobs = [(pid, label, i, traces[i:i + size]) for i in range(0, len(traces), size)]
+    out = [None] * len(traces)
+    total = None
+    with cf.ThreadPoolExecutor(max_workers=nchunks) as ex:
+        for offset, verdicts, res in ex.map(_validate_chunk, jobs):
+            tlc.require_ok(tlc.TLCResult(res), pid)
+            n = len([j for j in jobs if j[2] == offset][0][3])
+            if len(verdicts) != n:
+                common.machinery_exit(pid, 'Trace_Gen returned %d verdicts for %d traces' % (len(verdicts), n))
+            for i in range(n):
+                out[offset + i] = verdicts[i + 1]
+            if total is None:
+                total = tlc.TLCResult(res)
+            else:
+                for k in ('generated', 'distinct', 'exports'):
+                    total[k] += res[k]
+                total['wall_s'] = max(total['wall_s'], res['wall_s'])
+    total['label'] = '%s (%d traces in %d TLC processes)' % (label, len(traces), len(jobs))
+    return out, total
